@@ -88,6 +88,11 @@ def nested_global_program():
     m = Module([Global("int", "scale"), Global("int", "bias"), Global("int", "count"), inner_r, inner_w, outer_r, outer_w, pure,
                 Func("get", [Arg("int", "x")], "int", Block([Ret(B("+", Call("outer_r", [V("x")]), Call("twice", [V("x")])))]), export=True),
                 Func("bump", [Arg("int", "x")], "int", Block([Ret(B("+", Call("outer_w", [V("x")]), Call("twice", [V("x")])))]), export=True),
+                # the caller itself reads / assigns the global before and after a call that assigns it
+                Func("rcr", [Arg("int", "x")], "int", Block([Decl("int", "before", V("bias")), Decl("int", "r", Call("inner_w", [V("x")])), Decl("int", "after", V("bias")),
+                                                            Ret(B("+", B("*", V("before"), I(1000000)), B("+", B("*", V("r"), I(1000)), V("after"))))]), export=True),
+                Func("acc", [Arg("int", "x")], "int", Block([ES(A(V("bias"), B("+", V("bias"), I(1)))), Decl("int", "r", Call("inner_w", [V("x")])), ES(A(V("bias"), B("+", V("bias"), I(1)))),
+                                                            Ret(B("+", V("bias"), B("*", V("r"), I(0))))]), export=True),
                 Func("both", [Arg("int", "x")], "int", Block([Decl("int", "a", Call("outer_r", [V("x")])), Decl("int", "b", Call("outer_w", [V("x")])), Ret(B("+", B("*", V("a"), I(1000)), B("+", V("b"), Call("outer_r", [V("x")]))))]), export=True)])
     return ("nested-global-access", m)
 
@@ -160,7 +165,7 @@ def run(ctx):
         calls = [{"vm": v, "fn": "get", "args": {"x": 3}, "globals": {"scale": 2 + v, "bias": 1, "count": 0}, "read_globals": ["scale", "bias", "count"]} for v in (0, 1)]
         for _ in range(rng.randint(*hist_len)):
             vm = rng.choice([0, 0, 1])
-            c = {"vm": vm, "fn": rng.choice(["get", "get", "bump", "both"]), "args": {"x": rng.choice([3, 3, 3, 1, 4])}, "globals": {}, "read_globals": ["scale", "bias", "count"]}
+            c = {"vm": vm, "fn": rng.choice(["get", "get", "bump", "both", "rcr", "acc"]), "args": {"x": rng.choice([3, 3, 3, 1, 4])}, "globals": {}, "read_globals": ["scale", "bias", "count"]}
             if rng.random() < 0.35:
                 c["globals"] = {rng.choice(["scale", "bias"]): rng.randrange(-3, 8)}
             calls.append(c)
